@@ -77,6 +77,10 @@ class Runner:
                 v = self.stubs[(o.label, a)]
                 interp.events.append(("call", callee.text, args, kwargs))
                 return v(args) if callable(v) else v
+            if a == "get_op_list" and not args and "__ctor__" in o.fields:
+                # summary of Effect.get_op_list for abstract nodes: the leaf operands reachable through the constructor arguments
+                interp.events.append(("call", callee.text, args, kwargs))
+                return self.node_op_list(o)
             setters = {"set_src": "src", "set_dest": "dest", "set_value_type": "value_type", "update_stmt": "stmt"}
             if a in setters and len(args) == 1:
                 interp.events.append(("setter", o, a, args[0]))
@@ -182,6 +186,32 @@ class Runner:
 
     def s_simplify_conditional_expr(self, interp, args, kwargs):
         return self._fold(interp, "simplify_conditional_expr")
+
+    def node_op_list(self, obj, seen=None):
+        seen = set() if seen is None else seen
+        out = []
+
+        def rec(v):
+            if isinstance(v, AObj):
+                if id(v) in seen:
+                    return
+                seen.add(id(v))
+                if "__ctor__" in v.fields:
+                    for x in v.fields["__ctor__"].values():
+                        rec(x)
+                elif "of" in v.fields:
+                    for x in v.fields["of"]:
+                        rec(x)
+                elif v.cls in self.pure_like:
+                    out.append(v)
+            elif isinstance(v, (list, tuple)):
+                for x in v:
+                    rec(x)
+            elif isinstance(v, str):
+                out.append(v)
+
+        rec(obj)
+        return out
 
     @staticmethod
     def lab(x):
